@@ -74,6 +74,9 @@ def run_property(pid, tier='quick', seed=0):
         sys.path.insert(0, REPO)
     os.makedirs(os.path.join(HERE, 'evidence'), exist_ok=True)
     os.makedirs(os.path.join(HERE, 'replays'), exist_ok=True)
+    import glob
+    for old in glob.glob(os.path.join(HERE, 'replays', f'{pid}-*.json')):
+        os.unlink(old)
     plan = importlib.import_module(f'props.{pid}')
     ctx = Ctx(pid, tier, seed)
     crash = None
@@ -136,7 +139,7 @@ def run_property(pid, tier='quick', seed=0):
                 samples.append({'target': tn, 'obligation': ob['name'], 'path': ob['path'], 'backend': ob['backend'], 'status': ob['status']})
         for v in r.get('violations', []):
             w = v.get('witness', {})
-            ctx.violations.append({'what': f'{tn} / {v["name"]} / path {v["path"]}', 'detail': w.get('reason'), 'replayed': bool(w.get('replayed')),
+            ctx.violations.append({'what': f'{tn} / {v["name"].split("@")[0]}', 'detail': f'path {v["path"]} line {v.get("line")}: {w.get("reason")}', 'replayed': bool(w.get('replayed')),
                                    'inputs': w.get('inputs'), 'observed': w.get('observed'), 'solver': v.get('backend')})
     for lm in ctx.lemmas:
         obligations += 1
